@@ -564,10 +564,20 @@ static bool parse_comment(TokenContext &ctx, Chunk &pc)
          if (ctx.peek() == '\r')
          {
             pc.Str().append(ctx.get());
-         }
 
-         if (ctx.peek() == '\n')
+            if (ctx.peek() == '\n')
+            {
+               ++LE_COUNT(CRLF);
+               pc.Str().append(ctx.get());
+            }
+            else
+            {
+               ++LE_COUNT(CR);
+            }
+         }
+         else if (ctx.peek() == '\n')
          {
+            ++LE_COUNT(LF);
             pc.Str().append(ctx.get());
          }
          pc.SetNlCount(pc.GetNlCount() + 1);
